@@ -206,7 +206,7 @@ SEGS = ["echo a", "ls -l", "cat < a.b.c", "ls -a > a.b.c.de", "wc -l < foo.tar.Z
 _BREAK_IN_SUBST = ("echo @(1 and 2) z", "echo $(echo a; echo b)")
 _ENV_LEAD = ("$HOME/bin/x -l",)
 OPS = [None, "&&", "||", "and", "or"]
-POSITIONS = ["top", "after_semicolon", "block", "block2", "function", "continuation", "after_subst_semicolon"]
+POSITIONS = ["top", "after_semicolon", "block", "block2", "function", "continuation", "after_subst_semicolon", "after_def_with_params"]
 
 
 class _OK:
@@ -241,6 +241,9 @@ def _program(segs, op, pos, explicit):
         return "x = 1; " + line + "\n"
     if pos == "after_subst_semicolon":
         return "x = $(echo q); " + line + "\n"
+    if pos == "after_def_with_params":
+        # a function defined earlier whose parameters are named like the command words: its scope ended, the words are unbound
+        return "def _p(echo, ls, cat, wc, cd, rm, grep, a, l, x, hi, *v, **k):\n    pass\n" + line + "\n"
     if pos == "block":
         return "if True:\n    " + line + "\n"
     if pos == "block2":
@@ -394,9 +397,9 @@ OBLIGATIONS = [
     Obligation("bare_equals_explicit", ob_equiv,
                bounds=f"{NS} command segments (flags, redirects to dotted names, $VAR, @(), $(), quoted words, pipes, --opt=value, words ending in an "
                       "operator character, break words inside a substitution, a leading $VAR/path word) alone or joined "
-                      "by && / || / and / or, at top level, after ';' (also after a statement holding a $() substitution), in an indented block, at depth 2, "
+                      "by && / || / and / or, at top level, after ';' (also after a statement holding a $() substitution), after a function whose parameters are named like the command words, in an indented block, at depth 2, "
                       "in a function body, across a backslash continuation: the bare program runs exactly the commands of the program with every segment wrapped in ![...]",
-               pre=[f"0 <= s0 < {NS}", f"0 <= s1 < {NS}", "0 <= op_i < 5", "0 <= pos_i < 7"],
+               pre=[f"0 <= s0 < {NS}", f"0 <= s1 < {NS}", "0 <= op_i < 5", "0 <= pos_i < 8"],
                parts={"quick": [dict(pos_i=p, op_i=o) for p in range(len(POSITIONS)) for o in range(len(OPS))]},
                timeout={"quick": 240, "thorough": 600},
                regions={"C03-dashdash-eq-in-chain": _region_dashdash, "C03-continued-python-parsable-chain": _region_cont_chain,
